@@ -259,6 +259,43 @@ def refused_deregister(a1: bool, a2: bool, ti: int, owner: int) -> bool:
     return hx.end(_check_i3(m, [], "after everyone left and a refused deregister") is True)
 
 
+def component_aliases(a1: bool, a2: bool, ti: int, op: int) -> bool:
+    """
+    pre: 0 <= ti < 2 and 0 <= op < 4
+    post: _
+    """
+    # the deprecated camelCase entry points of agents and of the scheduler denote the same operations
+    import warnings
+    warnings.simplefilter("ignore")
+    hx.begin()
+    m = Model()
+    x = _mk_agent(m, "x", a1, a2, False)       # driven through the canonical API
+    y = _mk_agent(m, "y", a1, a2, False)       # driven through the aliases
+    T = hx.pick(TYPES, ti)
+    outs = []
+    for ag, alias in ((x, False), (y, True)):
+        r = None
+        try:
+            if op == 0:
+                (ag.addComponent if alias else ag.add_component)(T(ag, m))
+            elif op == 1:
+                (ag.removeComponent if alias else ag.remove_component)(T)
+            elif op == 2:
+                r = (ag.getComponent if alias else ag.get_component)(T, True) is ag.components.get(T)
+            else:
+                r = (ag.hasComponent if alias else ag.has_component)(T, T1)
+        except Exception as e:
+            r = type(e).__name__
+        outs.append((r, sorted(t.__name__ for t in ag.components)))
+    hx.reach('compared')
+    if outs[0] != outs[1]:
+        return hx.end(hx.fail("alias and canonical entry point differ", canonical=outs[0], alias=outs[1], op=op))
+    m.environment.add_agent(x)
+    if m.systems.getComponents(T) is not m.systems.get_components(T):
+        return hx.end(hx.fail("getComponents differs from get_components"))
+    return hx.end(True)
+
+
 # ------------------------------------------------------------------------------------------------ histories
 
 def _apply(m, env, agents, resident, op, ai, ti):
@@ -661,6 +698,7 @@ def obligations(tier):
           timeout=600, encoded=senc, bounds={"residents": "2", "worlds": ",".join(sp_worlds)}),
         X("rejected_join", rejected_join, parts=[{"world": w} for w in ["plain"] + sp_worlds], labels=("rejected",), timeout=600,
           encoded=senc, bounds={"residents": 2, "position": "all ints", "cause": "duplicate id / out of bounds on any axis and side"}),
+        X("component_aliases", component_aliases, labels=("compared",), timeout=300, encoded=enc),
         X("install_populated", install_populated, parts=[{"world": w} for w in ["plain"] + sp_worlds], labels=("populated",), timeout=600,
           encoded=senc + (Model.set_environment,)),
         X("refused_deregister", refused_deregister, labels=("refused",), timeout=300, encoded=enc),
